@@ -1,6 +1,5 @@
 import Librfn.Gen.FibreSeq
 import Librfn.Model.Fibre
-import Librfn.Props.C09Tie
 import Std.Tactic.BVDecide
 /-!
 # C02 — tie T for the comparator of the scheduler's timer queue (`duetime_cmp` of `fibre.c`)
@@ -14,8 +13,9 @@ regenerated from `/repo/librfn/fibre.c` on every run (`Gen/FibreSeq.lean`; `fibr
 * `duetime_cmp_tie`: `duetime_cmp(n1, n2) >= 0` is the model's `dueGe` — the wrapping subtraction read as signed, which is what makes
   the order of the timer queue independent of where the 32-bit time base stands (C02's `time_shift_invariance` is proved about
   `dueGe`);
-* `duetime_cmp_agrees`: as a pure function of two node addresses (the memory the due times are read from held fixed) it satisfies the
-  hypothesis `C09.Tie.CmpAgrees` under which `sorted_tie` ties `list_insert_sorted` to the sequence model for every list length.
+* (`Props/C09TieSched.lean`, proved by the C09 check) `duetime_cmp_agrees`: as a pure function of two node addresses (the memory the due
+  times are read from held fixed) it satisfies the hypothesis `C09.Tie.CmpAgrees` under which `sorted_tie` ties `list_insert_sorted`
+  to the sequence model for every list length.
 -/
 namespace Librfn.C02.Tie
 open Librfn.Gen Librfn.Gen.FibreSeq
@@ -37,14 +37,5 @@ theorem duetime_cmp_tie (due : Librfn.Sched.Fid → BitVec 32) (f x : Librfn.Sch
     BitVec.sle 0#32 (duetime_cmp n1 n2 mem).ret = Librfn.Model.Fibre.dueGe due f x := by
   rw [(duetime_cmp_generated n1 n2 mem).2.2.2, h1, h2]
   simp only [BitVec.sle, Librfn.Model.Fibre.dueGe, BitVec.toInt_zero, ge_iff_le]
-
-/-- the scheduler's comparator meets the hypothesis of `C09.Tie.sorted_tie` -/
-theorem duetime_cmp_agrees (L : Librfn.C09.Tie.Lay) (mem : Mem) (due : Librfn.Sched.Fid → BitVec 32)
-    (hd : ∀ n, L.okN n → dueAt mem (L.A (.next n)) = due n) :
-    Librfn.C09.Tie.CmpAgrees L (fun a b => (duetime_cmp a b mem).ret) (fun a b => (due a - due b).toInt) := by
-  intro a b ha hb
-  show BitVec.sle 0#32 (duetime_cmp (L.A (.next a)) (L.A (.next b)) mem).ret = true ↔ (due a - due b).toInt ≥ 0
-  rw [(duetime_cmp_generated _ _ mem).2.2.2, hd a ha, hd b hb]
-  simp only [BitVec.sle, BitVec.toInt_zero, decide_eq_true_eq, ge_iff_le]
 
 end Librfn.C02.Tie
